@@ -223,7 +223,11 @@ def run(ctx):
                 st["rejections"] += 1
                 distinct.add((r["gtext"], w))
                 if sent:
-                    if glr or det:
+                    if glr:
+                        # a sentence rejected by GLR is C01's subject (KF-C01-glr-false-reject: the driver loses
+                        # stack paths on nullable/cyclic grammars); there is no offending token to report on
+                        st["glr_rejected_sentences_left_to_C01"] = st.get("glr_rejected_sentences_left_to_C01", 0) + 1
+                    elif det:
                         ctx.violation("%s rejects an input the reference accepts" % pname, rep,
                                       no_input=True, key="reject")
                     continue
